@@ -67,6 +67,11 @@ def mk_id(hs, spec):
         return hs.Ref(spec['ref'])
     if 'refv' in spec:
         return hs.Ref(spec['refv'], 'dis')
+    if 'refn' in spec:
+        return hs.Ref(spec['refn'], spec.get('v', 5))       # a display value that is not a string
+    if 'q' in spec:
+        from hszinc.datatypes import BasicQuantity
+        return BasicQuantity(spec['q'], u'\u00b0F')           # one unit throughout: quantities of different units do not compare
     raise AssertionError(spec)
 
 
@@ -116,7 +121,8 @@ class GridMachine(BaseCheck):
                                    {'f': j + 0.5}, {'f': float(j // 2)}, {'s': ''},
                                    {'uri': 'http://x/%d' % j}, {'bin': 'text/r%d' % j}, {'uri': 'r%d' % j},
                                    {'s': u'cafe\u0301%d' % (j // 2)}, {'s': u'caf\u00e9%d' % (j // 2)},      # same glyphs, different strings
-                                   {'s': u'\u2126%d' % (j // 2)}, {'s': u'\u03a9%d' % (j // 2)}])
+                                   {'s': u'\u2126%d' % (j // 2)}, {'s': u'\u03a9%d' % (j // 2)},
+                                   {'refn': 'r%d' % (j // 2), 'v': 5 + j % 2}, {'q': 60 + j // 2}])
             rows.append({'id': idspec, 'n': j if k.random() < 0.8 else 0, 'mk': k.random() < 0.5})
             if k.random() < 0.15:
                 rows[-1]['sub'] = True           # an OrderedDict row
@@ -135,7 +141,8 @@ class GridMachine(BaseCheck):
                 'lookup_every': k.choice([1, 1, 2, 3, 0]),
                 'ninit': k.choice([0, 0, 1, 2, 3, 4, nrows, 2 * nrows if cls != 'unique-str' else nrows])}
         kinds = ['append', 'insert', 'extend', 'iadd', 'set', 'del', 'delslice', 'pop', 'popi', 'remove',
-                 'reverse', 'clear', 'slice', 'slice', 'filter', 'bad', 'extend_self', 'extend_grid', 'edit_id', 'lookup']
+                 'reverse', 'clear', 'slice', 'slice', 'filter', 'bad', 'extend_self', 'extend_grid', 'edit_id', 'lookup',
+                 'dump', 'reparse_pair', 'hdr_refused', 'pint']
         enabled = [x for x in sorted(set(kinds)) if k.random() < 0.75]
         if not enabled:
             enabled = ['append', 'del']
@@ -230,6 +237,21 @@ class GridMachine(BaseCheck):
                 ops.append({'op': 'edit_id', 'r': rr, 'id': nid})
             elif op == 'lookup':
                 ops.append({'op': 'lookup'})
+            elif op == 'dump':
+                # a read-only use of the grid between two operations: writing it out
+                ops.append({'op': 'dump', 'g': g, 'mode': r.choice(['zinc', 'json'])})
+            elif op == 'reparse_pair':
+                # the grid written twice into one multi-grid text and read back: two more grids, each its own list
+                ops.append({'op': 'reparse_pair', 'g': g, 'mode': r.choice(['zinc', 'zinc', 'json'])})
+                for _ in range(2):
+                    if len(lens) < POOL_MAX:
+                        lens.append(ln)
+            elif op == 'hdr_refused':
+                # a header store that a grid pinned below 3.0 refuses, survived by the caller: the rows are not concerned
+                ops.append({'op': 'hdr_refused', 'g': g, 'where': r.choice(['meta', 'colmeta', 'newcol']),
+                            'v': r.choice(['na', 'list'])})
+            elif op == 'pint':
+                ops.append({'op': 'pint', 'on': r.random() < 0.6})
         case['ops'] = ops
         return case
 
@@ -242,6 +264,10 @@ class GridMachine(BaseCheck):
             return self._execute(case)
         finally:
             sys.stdout = old
+            try:
+                self.hszinc.use_pint(False)      # process-wide mode: never left on for the next run
+            except Exception:
+                pass
 
     def _new_root(self, case, rows):
         hs = self.hszinc
@@ -335,6 +361,7 @@ class GridMachine(BaseCheck):
             gret = mret = None
             skipped = False
             new_entry = None
+            new_pair = None
             allow_prefix = None
             try:
                 if op in ('append', 'insert', 'set') and pinned_pre3 and v3(rows[o['r'] % len(rows)]):
@@ -493,6 +520,47 @@ class GridMachine(BaseCheck):
                             pg.reindex()
                 elif op == 'lookup':
                     pass
+                elif op == 'dump':
+                    try:
+                        hs.dump(g, mode=hs.MODE_JSON if o.get('mode') == 'json' else hs.MODE_ZINC)
+                        stats['quiet.dump'] = stats.get('quiet.dump', 0) + 1
+                    except Exception:
+                        stats['quiet.dump_raised'] = stats.get('quiet.dump_raised', 0) + 1      # what can be written is not this property's matter
+                elif op == 'pint':
+                    try:
+                        hs.use_pint(bool(o.get('on')))
+                        stats['quiet.pint_mode_switch'] = stats.get('quiet.pint_mode_switch', 0) + 1
+                    except Exception:
+                        pass
+                elif op == 'hdr_refused':
+                    if not pinned_pre3:
+                        skipped = True
+                    else:
+                        val = hs.NA if o.get('v') == 'na' else [1]
+                        key = 'zz%d' % step
+                        try:
+                            if o.get('where') == 'meta':
+                                g.metadata[key] = val
+                                del g.metadata[key]         # not refused (whether it should be is C10's matter): taken out again
+                            elif o.get('where') == 'colmeta':
+                                g.column['n'][key] = val
+                                del g.column['n'][key]
+                            else:
+                                g.column[key] = {'q': val}
+                                del g.column[key]
+                        except Exception:
+                            stats['fault.refused_header_store'] = stats.get('fault.refused_header_store', 0) + 1
+                elif op == 'reparse_pair':
+                    mode = hs.MODE_JSON if o.get('mode') == 'json' else hs.MODE_ZINC
+                    try:
+                        hs.use_pint(False)       # quantities read back in the other mode would not even compare with the ones in use
+                        pair = hs.parse(hs.dump([g, g], mode=mode), mode=mode, single=False)
+                    except Exception:
+                        pair = None
+                    if not pair or len(pair) != 2 or not all(isinstance(x, hs.Grid) for x in pair) or pair[0] is pair[1]:
+                        skipped = True       # what survives a round trip is not this property's matter
+                    else:
+                        new_pair = [(pg_, list(pg_)) for pg_ in pair]
                 else:
                     raise AssertionError(op)
             except Exception as e:
@@ -573,6 +641,19 @@ class GridMachine(BaseCheck):
                     pool[1 + step % (POOL_MAX - 1)] = entry
                     derived_idx.add(1 + step % (POOL_MAX - 1))
                 stats['derived_grids'] = stats.get('derived_grids', 0) + 1
+            if new_pair:
+                for ent in new_pair:
+                    for rw_ in ent[1]:
+                        if isinstance(rw_, dict) and 'id' in rw_:
+                            used_keys.append(rw_['id'])
+                    if len(pool) < POOL_MAX:
+                        pool.append(ent)
+                        derived_idx.add(len(pool) - 1)
+                    else:
+                        at = 1 + (step + len(ent[1])) % (POOL_MAX - 1)
+                        pool[at] = ent
+                        derived_idx.add(at)
+                stats['reparsed_pairs'] = stats.get('reparsed_pairs', 0) + 1
             # ---- observe every live grid
             do_lookup = (op == 'lookup') or (lookup_every and step % lookup_every == 0) or step == len(case['ops']) - 1
             for gi, (pg, pm) in enumerate(pool):
@@ -741,6 +822,10 @@ class GridMachine(BaseCheck):
         except Exception as e:
             return 'crash', {'key': 'never-used', 'via': 'get-nodefault', 'exc': type(e).__name__, 'msg': str(e)[:200]}
         return None
+
+    def localise(self, case):
+        if case.get('lookup_every', 1) != 1:
+            yield dict(case, lookup_every=1)
 
     # ---------------------------------------------------------------- shrink
     def simplify(self, case):
